@@ -12,7 +12,7 @@ RULE = ('synthetic maps 40-400 x 60-600 with 1-8 straight or gently sloped ridge
         'ascender / descender values, with and without end-point responses, ds in {1,2,3,4,8}; LayoutEngine.detect on non-square images (both aspect orders) with rot 0/1/2/3 and a stub ParseNet. '
         'non-trivial = map with >= 2 ridges or a rotated detection; distinct = hash of the ridge list / stroke list and parameters')
 ASSUMPTIONS = ['ridges are 3 map rows thick with the maximum in the middle row (a one-row ridge of probability < 0.9 is eroded by the engine\'s own 3x3 smoothing)',
-               'with end-point responses (overlapping one ridge pixel at each end) the ridge is at least 9 px long', 'expected end points ds*(x0-2), ds*(x1+2) within 1.5*ds; vertical position within 1.5*ds; heights within 0.5*ds',
+               'with end-point responses (overlapping one ridge pixel at each end) the ridge is at least 9 px long', 'expected end points ds*(x0-2), ds*(x1+2) within 1.5*ds; vertical position within 0.9*ds; heights within 0.5*ds',
                'lines of the two runs of the rotation clause are matched by nearest end points (the engine orders lines with random jitter)']
 N = {'quick': 340, 'thorough': 17000}
 CLASSES = ['maps', 'maps', 'maps_sloped', 'maps_endpoints', 'maps_many', 'detect_rot', 'detect_rot', 'maps_short']
@@ -142,7 +142,7 @@ def check(case, mon, ctx):
         yref = r['y0'] + r['slope'] * (np.clip(bb[:, 0], r['x0'], r['x1']) - r['x0'])
         ey = float(np.abs(bb[:, 1] - yref).max())
         mon.observe_max('vertical_error_map_px', ey)
-        if ey > 1.5:
+        if ey > 0.9:      # rounding of a sloped ridge (0.5) + end-point compensation on a slope (2 * 0.08)
             mon.violation('vertical-position-matches-the-map', dict(w, max_error=ey))
         ea, ed = float(hh[0] - r['asc']), float(hh[1] - r['desc'])
         mon.observe_max('height_error_map_px', max(abs(ea), abs(ed)))
